@@ -44,7 +44,7 @@ func init() {
 		MaxSteps:     400000,
 		YieldFiles:   []string{"clientgroups/clientgroups.go", "clientgroups/probe.go"},
 		QuickRuns:    8000,
-		ThoroughSecs: 600,
+		ThoroughSecs: 400,
 		Rule: "one run = one group (policy, TCP or UDP, 1..5 member stubs + 1 decoy, probe timeout/interval/concurrency incl. defaults) and either " +
 			"a scripted probe history (per client and round: success with a latency from a small per-run menu, or refusal / wrong status / silence / " +
 			"close / garbage; 1..80 rounds, i.e. beyond the 32/64-round retention) with choice samples taken while a probe is held and at drawn times, " +
